@@ -498,6 +498,19 @@ impl Engine {
         });
     }
 
+    /// Once a violation has been reported the remaining sub-checks are
+    /// skipped: the verdict is already decided and a broken tree can make
+    /// later sub-checks arbitrarily slow (e.g. expensive shrinking).
+    fn skip_after_violation(&self, name: &str) -> bool {
+        if self.has_violation() && std::env::var("VERIF_KEEP_GOING").is_err() {
+            self.subchecks.lock().unwrap().push(json!({"name": name, "skipped": "a violation was already reported"}));
+            eprintln!("[{}] {:<28} skipped (a violation was already reported)", self.prop, name);
+            true
+        } else {
+            false
+        }
+    }
+
     pub fn add_evaluations(&self, n: u64) {
         self.evaluations.fetch_add(n, Ordering::SeqCst);
         self.exhaustive.store(false, Ordering::SeqCst);
@@ -532,6 +545,9 @@ impl Engine {
     where
         F: Fn(u64, &mut Rec) -> Result<(), (Value, Fail)> + Sync,
     {
+        if self.skip_after_violation(name) {
+            return;
+        }
         let t0 = Instant::now();
         let next = AtomicU64::new(0);
         let chunk = (total / (self.threads as u64 * 64)).clamp(1, 4096);
@@ -606,6 +622,9 @@ impl Engine {
         F: Fn(&S::Value, &mut Rec) -> CheckResult + Sync,
         J: Fn(&S::Value) -> Value + Sync,
     {
+        if self.skip_after_violation(name) {
+            return;
+        }
         let t0 = Instant::now();
         let shards = (self.threads as u64).min(cases.max(1));
         let per = (cases + shards - 1) / shards;
@@ -623,7 +642,7 @@ impl Engine {
                     config.failure_persistence = None;
                     config.rng_seed = RngSeed::Fixed(self.sub_seed(name, shard));
                     config.max_shrink_iters = self.max_shrink_iters.load(Ordering::SeqCst);
-                    config.max_shrink_time = 0;
+                    config.max_shrink_time = 45_000; // ms; shrinking is best-effort, the unshrunk case is still a valid replay
                     config.verbose = 0;
                     config.source_file = None;
                     config.max_global_rejects = 1_000_000;
@@ -684,6 +703,9 @@ impl Engine {
         F: Fn(&T, &mut Rec) -> CheckResult + Sync,
         J: Fn(&T) -> Value + Sync,
     {
+        if self.skip_after_violation(name) {
+            return;
+        }
         let t0 = Instant::now();
         let evals_before = self.evaluations.load(Ordering::SeqCst);
         let next = AtomicU64::new(0);
